@@ -403,6 +403,10 @@ func (e *Engine) Run(sp *Spec) *Outcome {
 		if isDone(sendDone) && isDone(recvDone) {
 			break
 		}
+		if isDone(sendDone) && !out.RPCSeen && len(e.Net.PendingHeads()) == 0 {
+			// the sender gave up before the request ever reached the receiver
+			break
+		}
 		if iter > 400000 || idle > 600 {
 			out.Stuck = true
 			break
